@@ -11,7 +11,7 @@ import copy
 import random
 
 from .. import gen, emit, lib, util, model, calib
-from ..emit import M, L, S
+from ..emit import M, L, S, SP
 from . import c05
 
 ID = 'C08'
@@ -69,11 +69,22 @@ def gen_notnew(rng, base):
             m['new'] = True
     if rng.random() < 0.25:
         ov = gen.place_flags(rng, ov, p=0.15, vocab=('prio', 'del'), on_seq_elems=False)
+    if rng.random() < 0.3:
+        for _, n in list(emit.walk(ov)):
+            if n['t'] == 'sc' and not emit.has_flags(n) and rng.random() < 0.3:
+                f = _fn(rng)
+                n.clear()
+                n.update(f)
     docs = base + [ov]
     if rng.random() < 0.06:
         docs = [ov]                   # !notnew in a first document
     style = rng.choice(['flow', 'block'])
     return {'kind': 'notnew', 'docs': docs, 'texts': [emit.emit(d, style) for d in docs]}
+
+
+def _fn(rng):
+    """a function node as the written value: its arguments are paths like any other (!call:dict evaluates to exactly its keyword arguments)"""
+    return SP('call', func='dict', args=M([[k, gen.scalar_node(rng, rng.choice([1, 2.5, 'w', True]))] for k in rng.sample(POOL, rng.randrange(0, 3))]))
 
 
 def _prune(doc, have, rng, path=()):
@@ -93,6 +104,7 @@ def gen_cmdline(rng, base):
         return None
     allp = sorted((p for p in paths_of(bplain) if p), key=repr)
     overrides = []
+    fn_paths = []
     for _ in range(rng.choice([1, 1, 2, 3])):
         if not allp:
             break
@@ -119,13 +131,19 @@ def gen_cmdline(rng, base):
             v = gen.scalar_node(rng, gen.rand_scalar(rng, hostile=False))
             if v.get('nf') == '':
                 v['nf'] = 'null'
-        elif r < 0.8:
+        elif r < 0.75:
             v = L([gen.scalar_node(rng, gen.rand_scalar(rng, False)) for _ in range(rng.randrange(0, 3))])
+        elif r < 0.87:
+            v = _fn(rng)
         else:
             v = M([[rng.choice(POOL), gen.scalar_node(rng, gen.rand_scalar(rng, False))] for _ in range(rng.randrange(0, 2))])
         for _, sn in emit.walk(v):
             if sn['t'] == 'sc' and sn.get('nf') == '':
                 sn['nf'] = '~'
+        if any(tuple(path[:len(fp)]) == fp for fp in fn_paths):
+            continue        # what a later string / mapping / list does to a function node is C13's table, not this property
+        if v['t'] == 'sp':
+            fn_paths.append(tuple(path))
         overrides.append({'path': path, 'value': v})
     style = rng.choice(['flow', 'block'])
     return {'kind': 'cmdline', 'docs': base, 'texts': [emit.emit(d, style) for d in base], 'overrides': overrides}
@@ -159,6 +177,11 @@ def run(case):
             return {'status': 'skip', 'feats': ['cmdline_path_starts_with_index']}
         args = [override_arg(ov) for ov in case['overrides']]
         docs = docs + [override_doc(ov) for ov in case['overrides']]
+    from . import c14
+    has_fn = any(n['t'] == 'sp' for d in docs for _, n in emit.walk(d))
+    if has_fn:
+        feats.append('function_node_value')
+        docs = [c14.to_model(d) for d in docs]
     try:
         exp = ('ok', model.plain(model.build(copy.deepcopy(docs), strict_domain=True)))
     except model.OutOfDomain:
